@@ -165,6 +165,25 @@ def run_shard(rec):
                     if rec.mine(idx):
                         x2 = ('sep', e, s, {k: v for k, v in oo.items() if k != '_op'})
                         go(('seq', [x2, REST]), ('sep-ctor', ename + '/' + sname, 'seq-tail'), inputs=ins_small)
+    # --- a separated list written INLINE inside the element of another one (the two loops live in one
+    # generated function): every pairing of four option sets, kept and discarded separators
+    NEST_OPTS = [dict(discard_separators=True, allow_trailer=True, allow_empty=True, require_separator=True),
+                 dict(discard_separators=True, allow_trailer=True, allow_empty=False, require_separator=True),
+                 dict(discard_separators=False, allow_trailer=True, allow_empty=True, require_separator=True),
+                 dict(discard_separators=True, allow_trailer=False, allow_empty=True, require_separator=False),
+                 dict(discard_separators=False, allow_trailer=True, allow_empty=False, require_separator=False)]
+    nest_ins = [t for t in work.inputs_for('a,;()', 6 if quick else 7) if t.count('(') == t.count(')') and t.count('(') <= 2
+                and '((' not in t and (not t or t[0] in '(a')]
+    for oi, oo in enumerate(NEST_OPTS):
+        for ii, io in enumerate(NEST_OPTS):
+            for shape in ('paren', 'bare'):
+                idx += 1
+                if not rec.mine(idx):
+                    continue
+                inner = ('sep', ('str', 'a'), ('str', ','), dict(io))
+                elem = ('right', ('str', '('), ('left', inner, ('str', ')'))) if shape == 'paren' else ('seq', [('str', '('), inner])
+                x = ('sep', elem, ('str', ';'), dict(oo))
+                go(('seq', [x, ('re', '[a,;()]*', False)]), ('sep-nested', '%d/%d' % (oi, ii), shape), inputs=nest_ins)
     # --- data-dependent bounds
     digits_ins = [d + t for d in '01234' for t in work.inputs_for('ab', 5 if quick else 6)]
     NUM = ('apply', ('re', '[0-9]', False), ('py', 'int'))
